@@ -41,7 +41,7 @@ func hostileIn(c Case, class string) bool {
 const rule = "directories of 0..5 files (names from a pool incl. surprising sort orders, non-.sql bystanders and, as separate classes, names the sum format cannot represent), " +
 	"contents = small byte strings (empty, no trailing newline, CRLF, first-line `atlas:sum ignore` / `atlas:checkpoint` directives, near-miss directives); " +
 	"sum written with WriteSumFile(dir, dir.Checksum()) and compared byte-for-byte with an independent implementation of the documented format; " +
-	"edits: add at any sort position, remove, rename, swap contents, flip/insert/delete one byte at any offset, atlas.sum edits (change a hash/name character, delete/duplicate/swap lines, truncate, remove the file); " +
+	"edits: add at any sort position, remove, rename, swap contents, flip/insert/delete one byte at any offset, atlas.sum edits (change a hash/name character, delete/duplicate/swap lines, truncate, remove the file, move a character from a hash to the name in front of it, join two lines); " +
 	"exhaustive slice = every file x every byte offset x {flip, insert, delete} and every remove/rename/add/sum edit on fixed small directories; random = 1..3 stacked directory edits. " +
 	"Oracle: Validate fails with a checksum error iff the reference model's protected sequence changed (both directions), on MemDir and LocalDir. " +
 	"Stateful part: Planner.WritePlan / WriteCheckpoint / MemDir.CopyFiles and the CLI (migrate new/hash/diff/import) leave the directory valid; tampering flips `migrate validate`/`migrate apply` until the next `migrate hash`. " +
@@ -126,7 +126,7 @@ func genSumCase(t *rapid.T) Case {
 	c := Case{Files: genFiles(t, false), Local: rapid.IntRange(0, 3).Draw(t, "local") == 0}
 	sum := modelSum(c.Files)
 	nl := strings.Count(sum, "\n")
-	e := Edit{Kind: rapid.SampledFrom([]string{"sum-flip", "sum-flip", "sum-del-line", "sum-dup-line", "sum-swap-lines", "sum-truncate", "sum-remove"}).Draw(t, "skind")}
+	e := Edit{Kind: rapid.SampledFrom([]string{"sum-flip", "sum-flip", "sum-del-line", "sum-dup-line", "sum-swap-lines", "sum-truncate", "sum-remove", "sum-shift", "sum-join"}).Draw(t, "skind")}
 	e.Off = rapid.IntRange(0, len(sum)-1).Draw(t, "soff")
 	e.File = rapid.IntRange(0, nl).Draw(t, "sline")
 	e.Peer = rapid.IntRange(0, nl).Draw(t, "speer")
@@ -187,6 +187,9 @@ func exhaustive(files []File, local bool, f func(Case) bool) {
 	}
 	for l := 1; l <= nl; l++ {
 		if !f(Case{Files: files, Local: local, Edits: []Edit{{Kind: "sum-del-line", File: l, Rehash: true}}}) || !f(Case{Files: files, Local: local, Edits: []Edit{{Kind: "sum-dup-line", File: l, Rehash: true}}}) {
+			return
+		}
+		if !f(Case{Files: files, Local: local, Edits: []Edit{{Kind: "sum-shift", File: l}}}) || !f(Case{Files: files, Local: local, Edits: []Edit{{Kind: "sum-join", File: l}}}) {
 			return
 		}
 		if !f(Case{Files: files, Local: local, Edits: []Edit{{Kind: "sum-del-line", File: l}}}) || !f(Case{Files: files, Local: local, Edits: []Edit{{Kind: "sum-dup-line", File: l}}}) {
